@@ -13,6 +13,8 @@
 //!   AR r count x...             `count` adds, cycling through x...
 //!   F r x... | FR r x...        r = collect by value | by reference
 //!   E r x... | ER r x...        r.extend(by value | by reference)
+//!   FG|FGR r n pos base ext     r = collect from a generated iterator of n items (all base, item pos = ext)
+//!   EG|EGR r n pos base ext     r.extend(the same generated iterator)
 //!   M r s                       r.merge(&s)
 //!   K r s                       r = s.clone()
 //!   S r j|v                     r = deserialize(serialize(r)) via JSON text | Value tree
@@ -163,6 +165,26 @@ fn run_case<T: Est>(params: &[&str], ops: &[Vec<&str>], out: &mut String) {
                 match res {
                     Ok(Some(v)) => regs[reg(op[1])] = Some(v),
                     Ok(None) => unsupported!(),
+                    Err(m) => writeln!(out, "p {} {}", idx, m).unwrap(),
+                }
+            }
+            "FG" | "FGR" => {
+                // FG r n pos base ext : collect from a generated iterator
+                let (n, pos): (usize, usize) = (op[2].parse().unwrap(), op[3].parse().unwrap());
+                let (base, ext) = (pf(op[4]), pf(op[5]));
+                match guarded(|| T::from_gen(n, pos, base, ext, code == "FGR")) {
+                    Ok(Some(v)) => regs[reg(op[1])] = Some(v),
+                    Ok(None) => unsupported!(),
+                    Err(m) => writeln!(out, "p {} {}", idx, m).unwrap(),
+                }
+            }
+            "EG" | "EGR" => {
+                let (n, pos): (usize, usize) = (op[2].parse().unwrap(), op[3].parse().unwrap());
+                let (base, ext) = (pf(op[4]), pf(op[5]));
+                let r = need!(reg(op[1]));
+                match guarded(|| r.ext_gen(n, pos, base, ext, code == "EGR")) {
+                    Ok(true) => {}
+                    Ok(false) => unsupported!(),
                     Err(m) => writeln!(out, "p {} {}", idx, m).unwrap(),
                 }
             }
